@@ -19,7 +19,15 @@ func init() {
 			"NOT covered: the no-loss law and quote handling of the splitter's slow path (a byte-level state machine over runtime strings).",
 		Assume:  []string{"strings.Index / strings.Split semantics"},
 		Trusted: []string{"go/types", "go/ssa"},
-		Run:     func(c *Ctx) { runC14Parse(c); runC14(c); runC14Set(c); runC14Stack(c); runC14Split(c); runC14SplitterUse(c); base(c, "STATE", "ALIAS", "LABEL") },
+		Run: func(c *Ctx) {
+			runC14Parse(c)
+			runC14(c)
+			runC14Set(c)
+			runC14Stack(c)
+			runC14Split(c)
+			runC14SplitterUse(c)
+			base(c, "STATE", "ALIAS", "LABEL")
+		},
 	})
 }
 
@@ -31,7 +39,7 @@ type lin struct {
 }
 
 func linConst(v int64) lin { return lin{c: v, t: map[string]int64{}, ok: true} }
-func linTerm(n string) lin  { return lin{t: map[string]int64{n: 1}, ok: true} }
+func linTerm(n string) lin { return lin{t: map[string]int64{n: 1}, ok: true} }
 func (a lin) add(b lin, sign int64) lin {
 	if !a.ok || !b.ok {
 		return lin{}
@@ -300,7 +308,6 @@ func runC14ParserShape(c *Ctx, fn *ssa.Function) {
 		c.Check(ok, "C14-ORDER", fnName(fn), "delimiters", eqCalls[0].call.Pos(), how, "'=' is searched over the whole text and never related to the position of '|': a message containing '=' (which the builder allows) is split in the middle — GenValidKV(\"required\",\"\",\"a=b\") parses as key \"required|a\"")
 	}
 }
-
 
 // runC14Delim: constants the builder writes vs constants the parser / splitter search.
 func runC14Delim(c *Ctx) {
